@@ -66,11 +66,13 @@ prop("C20", level="exploration",
 
 @plan("C20")
 def plan_c20(tier, seed):
+    # nine fresh processes whose FIRST endian operation differs (process-global first-use state)
+    firsts = [Run(v, "c20", ["first=%d" % k, "onlyfirst"], timeout=120) for k in range(9) for v in (("std-debug", "std-release") if tier != "quick" or k % 2 == 0 else ("std-debug",))]
     if tier == "quick":
-        return [Run("std-release", "c20", ["seed=%d" % seed, "tier=quick"], timeout=300),
-                Run("std-debug", "c20", ["seed=%d" % seed, "tier=quick", "random32=200000", "random64=300000"], timeout=300)]
-    return [Run("std-release", "c20", ["seed=%d" % seed, "tier=thorough"], timeout=3000),
-            Run("std-debug", "c20", ["seed=%d" % seed, "tier=quick"], timeout=900)]
+        return firsts + [Run("std-release", "c20", ["seed=%d" % seed, "tier=quick"], timeout=300),
+                         Run("std-debug", "c20", ["seed=%d" % seed, "tier=quick", "random32=200000", "random64=300000"], timeout=300)]
+    return firsts + [Run("std-release", "c20", ["seed=%d" % seed, "tier=thorough"], timeout=3000),
+                     Run("std-debug", "c20", ["seed=%d" % seed, "tier=quick"], timeout=900)]
 
 
 FLOORS["C20"] = {"evaluations": 10_000_000, "distinct_nontrivial": 1000}
